@@ -18,8 +18,10 @@ PROG_W = [[(0, 1000), (0, 1001), (0, 1002)]]  # one task, three sends, for seque
 
 # budget vectors: an execution is explored iff its (r, p, f) deviation counts fit inside one of them
 QUICK_B = [{"r": 1, "f": 1}, {"p": 1, "f": 1}, {"r": 1, "p": 1}, {"r": 2}, {"f": 2}]
-THOROUGH_SMALL = [{"r": 1, "p": 1, "f": 1}, {"r": 1, "f": 2}, {"r": 2, "f": 1}, {"p": 2}, {"r": 2, "p": 1}]
-THOROUGH_B = QUICK_B + [{"r": 2, "f": 1}, {"r": 1, "f": 2}]
+# (triples with a mid-cascade injection - {r1,p1,f1}, {r2,p1}, {p2} - are ~10^6 executions per scenario: a 3.4*10^6 run with them
+# completed clean once in 2.9 h; the registered thorough tier keeps to what finishes in minutes)
+THOROUGH_SMALL = QUICK_B + [{"r": 2, "f": 1}]
+THOROUGH_B = QUICK_B
 
 
 def scenarios(ctx):
